@@ -269,6 +269,14 @@ class SpecBuiltins:
     def s_cls_is(self, it, node, fr):
         fr = self._pure(fr)
         v = it.eval(node.args[0], fr)
+        prim = self._prim_ty(node.args[1])
+        if prim is not None:
+            if isinstance(v.ty, TUnion):
+                for i, a in enumerate(v.ty.alts):
+                    if a == prim:
+                        return SV(TBool, v.ty.is_alt(i, v.term))
+                return SV(TBool, z3.BoolVal(False))
+            return SV(TBool, z3.BoolVal(v.ty == prim))
         c = it.eval(node.args[1], fr)
         if isinstance(v.ty, TOpt):
             return SV(TBool, z3.And(z3.Not(v.ty.is_none(v.term)), it.cls_of(v.ty.val(v.term)) == it.cls_id(c.ci.qname)))
@@ -286,10 +294,48 @@ class SpecBuiltins:
             return SV(TBool, z3.BoolVal(False))
         return SV(TBool, it.cls_of(v.term) == it.cls_id(c.ci.qname))
 
+    def _prim_ty(self, n):
+        if isinstance(n, ast.Name) and n.id in ("int", "bool", "str"):
+            return {"int": TInt, "bool": TBool, "str": TStr}[n.id]
+        return None
+
+    def _narrow_union(self, it, v, t):
+        """View a union value as the (sub-)union t: meaningful when v is in one of t's alternatives."""
+        if v.ty == t:
+            return v
+        if not isinstance(v.ty, TUnion):
+            return it.coerce(v, t)
+        if not isinstance(t, TUnion):
+            for i, a in enumerate(v.ty.alts):
+                if a == t:
+                    return SV(t, v.ty.proj(i, v.term))
+            raise Unsupported(f"as_cls: {t} not an alternative of {v.ty}")
+        res = None
+        for i, a in reversed(list(enumerate(v.ty.alts))):
+            if a in t.alts:
+                inj = it.coerce(SV(a, v.ty.proj(i, v.term)), t).term
+                res = inj if res is None else z3.If(v.ty.is_alt(i, v.term), inj, res)
+        if res is None:
+            raise Unsupported(f"as_cls: {t} shares no alternative with {v.ty}")
+        return SV(t, res)
+
     def s_as_cls(self, it, node, fr):
         """View a reference as an instance of a class (meaningful under cls_is)."""
         fr = self._pure(fr)
         v = it.eval(node.args[0], fr)
+        if isinstance(node.args[1], ast.Constant) and isinstance(node.args[1].value, str):
+            # a (sub-)union given as a type string: re-inject the alternatives
+            t = self.cdb.types.parse_ty(node.args[1].value, fr.module)
+            return self._narrow_union(it, v, t)
+        prim = self._prim_ty(node.args[1])
+        if prim is not None:
+            if isinstance(v.ty, TUnion):
+                for i, a in enumerate(v.ty.alts):
+                    if a == prim:
+                        return SV(prim, v.ty.proj(i, v.term))
+            if v.ty == prim:
+                return v
+            raise Unsupported(f"as_cls to {prim} of {v.ty}")
         c = it.eval(node.args[1], fr)
         if isinstance(v.ty, TOpt):
             v = SV(v.ty.inner, v.ty.val(v.term))
